@@ -93,28 +93,28 @@ CHECKS = {
          "Acceptance differences between batch and incremental routes are allowed by the property and end the comparison of a case.",
          "DESIGN.md section 3, C17"),
 }
-# additions of the later seeded rounds (8-11), appended to the level texts above
+# additions of the later seeded rounds (8-12), appended to the level texts above
 EXTRA = {
- "C01": "Also: duplicate-name programs (one name declared twice in a struct literal, parameter list, destructuring, module, used at the type of either declaration), sessions that go on after a run-time error, a type filter for every catalogue type pulled past its end, destructuring and union-of-function calls with the results used.",
- "C02": "Also: the C01 additions under the panic guard (duplicate names and bare returns used as promised, sessions continued after a failed compound assignment, filter-to family, folds used at the function's type).",
- "C03": "Also: every blank of the structured catalogues written as tab, line end, comment; duplicate-name programs; a hook change lets negative lengths cast to usize reach the code under test.",
- "C04": "Also: a probe keeps the recorded finding about pruned branches narrowing empty-array labels visible; generated programs contain parameters spelled like visible constants, discarded statements of every literal kind, equal-branch ifs with and without braces, swap destructuring.",
- "C05": "Also: every set of three of 18 partially subsuming component types inside 9 kinds of type (7.3k unions) queried on fresh threads; two parses of a rejected program must give equal errors; programs writing to filler cells and testing wide struct types in the histories.",
+ "C01": "Also: duplicate-name programs (one name declared twice in a struct literal, parameter list, destructuring, module, used at the type of either declaration), sessions that go on after a run-time error, a type filter for every catalogue type pulled past its end, destructuring and union-of-function calls with the results used. Round 12: bodies that can end under `-> !`.",
+ "C02": "Also: the C01 additions under the panic guard (duplicate names and bare returns used as promised, sessions continued after a failed compound assignment, filter-to family, folds used at the function's type). Round 12: declarations in conditionally executed positions (with and without braces) used afterwards; a probe keeps the recorded finding about the re-typed sum of a pruned empty array visible.",
+ "C03": "Also: every blank of the structured catalogues written as tab, line end, comment; duplicate-name programs; a hook change lets negative lengths cast to usize reach the code under test. Round 12: operands re-typed by the folding pass (sums of pruned empty arrays under every template), conditional declarations.",
+ "C04": "Also: a probe keeps the recorded finding about pruned branches narrowing empty-array labels visible; generated programs contain parameters spelled like visible constants, discarded statements of every literal kind, equal-branch ifs with and without braces, swap destructuring. Round 12: compound literals whose parts are all constants (repeated field names) in the twins.",
+ "C05": "Also: every set of three of 18 partially subsuming component types inside 9 kinds of type (7.3k unions) queried on fresh threads; two parses of a rejected program must give equal errors; programs writing to filler cells and testing wide struct types in the histories. Round 12: fillers that are functions returning cells in the history / process comparisons.",
  "C06": "Also: 42 host calls (create_call + exec_unscoped into the function's own interpreter: no name of the body appears, none changes), 32 programs where the non-binding part of a binding construct uses the outer name, 6 struct-literal field-scope programs, all with documented values.",
- "C07": "Also: computed callees, discarded array / tuple / struct / index statements, identically spelled effectful elements, assignments from the cell's own content and an update of it, equal-branch ifs.",
- "C08": "Also: nested prefix operators, bare negative literals, the operation as a discarded statement, `a op b op b` against the oracle applied twice.",
- "C09": "Also: index as a discarded statement, as the tested expression of if-set / while-set, inside a collected map stage (gather); sequences reached through binders that shadow constants; slices compared with the selected elements by == in both orders.",
- "C10": "Membership forms: if-set, match, while-set, type filter, two filters in a row, cells made from the tested value, host-call admission; default values of every catalogue type inside 9 constructors belong to their type.",
- "C11": "Also: failing callbacks, type filters for tuple and array types over look-alike elements, sums over `[]~` behind typed parameters, sources that end and resume under every adapter (documented results and pull counts).",
- "C12": "Also: loop values (12 shapes, tested by if-set, match and through a cell), arrays of compound elements of two types against narrow and wide arms, tuples matched by value among prefix tuples, struct types over other field names.",
+ "C07": "Also: computed callees, discarded array / tuple / struct / index statements, identically spelled effectful elements, assignments from the cell's own content and an update of it, equal-branch ifs. Round 12: 252 sessions calling callees left by an earlier input with effectful arguments.",
+ "C08": "Also: nested prefix operators, bare negative literals, the operation as a discarded statement, `a op b op b` against the oracle applied twice. Round 12: the operation and the compound assignment as an element not taken out of a compound written in place.",
+ "C09": "Also: index as a discarded statement, as the tested expression of if-set / while-set, inside a collected map stage (gather); sequences reached through binders that shadow constants; slices compared with the selected elements by == in both orders. Round 12: histories of run-time strings with equal byte length; the slice of an array has the array's type.",
+ "C10": "Membership forms: if-set, match, while-set, type filter, two filters in a row, cells made from the tested value, host-call admission; default values of every catalogue type inside 9 constructors belong to their type. Round 12: values made at run time from operands narrower than their position's declared type, judged by the type monitor.",
+ "C11": "Also: failing callbacks, type filters for tuple and array types over look-alike elements, sums over `[]~` behind typed parameters, sources that end and resume under every adapter (documented results and pull counts). Round 12: 10 function values x 10 function types through type filters.",
+ "C12": "Also: loop values (12 shapes, tested by if-set, match and through a cell), arrays of compound elements of two types against narrow and wide arms, tuples matched by value among prefix tuples, struct types over other field names. Round 12: function values dispatched by type arms and if-set (single and paired arms).",
  "C13": "Also: concatenation of arrays of cells, array labels that do not admit a cell they hold, duplicate names holding cells, discarded cell creations with effects.",
- "C14": "Also: negative later operands (`x % -10 % 3`), equality / MIN_INT boundaries before comparisons, prefix minus on float zeros with documented values.",
- "C15": "Also: unions built from two halves joined with `|` both ways round.",
- "C16": "Also: first use of 22 operators by 16 threads in fresh child processes, nested values rendered by 8 threads at once, functions whose calls alternate between arms, fillers that are functions returning cells.",
- "C17": "Also: binder-value sessions (11 binding constructs x 5 outer declarations), sessions over union-declared values, 77 fresh-state programs executed four times from one Code.",
+ "C14": "Also: negative later operands (`x % -10 % 3`), equality / MIN_INT boundaries before comparisons, prefix minus on float zeros with documented values. Round 12: iterator chains with documented values (partial / counting predicates, chains executed again).",
+ "C15": "Also: unions built from two halves joined with `|` both ways round. Round 12: struct field names spelled like words of the language.",
+ "C16": "Also: first use of 22 operators by 16 threads in fresh child processes, nested values rendered by 8 threads at once, functions whose calls alternate between arms, fillers that are functions returning cells. Round 12: 8 threads printing their own lines with stdout captured; isolated programs measuring their own run-time strings.",
+ "C17": "Also: binder-value sessions (11 binding constructs x 5 outer declarations), sessions over union-declared values, 77 fresh-state programs executed four times from one Code. Round 12: constructs whose callee / source has a local spelled like an outer run-time variable.",
  "C18": "Also: reducer pools around zeros / NaN / infinities, context-sensitive case mapping, a partial model of parse_float, documented rendering of cells and of plain nested strings.",
  "C19": "Also: 18 binding constructs between two uses of an object, std objects reached from two threads, a function called by the host with itself, prefix tuples and far slice bounds among the provenance paths, operands typed by different overlapping unions.",
- "C20": "Also: decimal literals with leading zeros, literals nested in tuples and arrays (program and value literal), texts holding MIN_INT used as programs.",
+ "C20": "Also: decimal literals with leading zeros, literals nested in tuples and arrays (program and value literal), texts holding MIN_INT used as programs. Round 12: values of 100-3000 leaves, strings up to 60 000 scalars.",
 }
 PENDING = {}
 props = [json.loads(l) for l in open(os.path.join(ROOT, "properties.jsonl"))]
